@@ -36,6 +36,10 @@ fn main() {
         let u2 = spec2.universe();
         ctx.run_slice(Slice::new(format!("forget-terms-2-edges[{}]", spec2.name()), u2.count().min(600_000), |i, loc| check_forget_term(&u2.get(i), loc)));
     }
+    // a third node label on four nodes (label-keyed caches in the functor machinery behind forget)
+    let s3l = Spec { n_min: 4, n_max: 4, e_min: 0, e_max: 1, ks: 1, kt: 1, lw: 3, lx: 2, a: 1, b: 1, q: 0 };
+    let u3l = s3l.universe();
+    ctx.run_slice(Slice::new(format!("forget-terms-three-labels[{}]", s3l.name()), u3l.count(), |i, loc| check_forget_term(&u3l.get(i), loc)));
     // larger programs and terms, as parametrised families
     let sp = structured_programs(if quick { 6 } else { 9 });
     ctx.run_slice(Slice::new(format!("structured-programs[{} programs: chains, folds over up to 7-10 inputs, a variable used many times, wide operations]", sp.len()), sp.len() as u64, |i, loc| check_program::<B>(&sp[i as usize], loc)));
